@@ -30,7 +30,7 @@ func init() {
 			h := Hi(t, 3, 4)
 			return Box([]int{1, 1, 1}, []int{h, h, h}, func(v []int) bool { return v[0] <= v[1] })
 		},
-		New: func(c []float64) strategy.Strategy { return strend.NewMacdStrategyWith(I(c, 0), I(c, 1), I(c, 2)) },
+		New:  func(c []float64) strategy.Strategy { return strend.NewMacdStrategyWith(I(c, 0), I(c, 1), I(c, 2)) },
 		Warm: func(c []float64) int { return I(c, 1) + I(c, 2) - 2 },
 		// doc: MACD above the signal line is bullish, below bearish; the code's inline comments add the
 		// zero-line guards (macd < 0 for Buy, macd > 0 for Sell) on which the doc comment is silent -> follow the code.
@@ -61,6 +61,8 @@ func init() {
 			for p := 1; p <= Hi(t, 3, 5); p++ {
 				r = append(r, []float64{float64(p), 30, 70}, []float64{float64(p), 50, 50})
 			}
+			// levels at and beyond the ends of the indicator's range: the usual way to switch one side off
+			r = append(r, []float64{2, -10, 70}, []float64{2, 30, 110}, []float64{2, 0, 100})
 			return r
 		},
 		New: func(c []float64) strategy.Strategy {
